@@ -10,8 +10,34 @@ package sym
 // (only under !vrt.Symbolic()) and search a key that hashes to the same residue.
 
 import (
+	"go/types"
+
 	"golang.org/x/tools/go/ssa"
 )
+
+// A locally seeded generator (rand.New(rand.NewSource(time.Now().UnixNano())), used by
+// BalanceGslb.randomSelectExclude) is nondeterministic like the global one: NewSource/New build an
+// inert object and the draw methods return a fresh value of the documented range.
+func init() {
+	intrinsics["math/rand.NewSource"] = func(m *Machine, fn *ssa.Function, a []value) value { return iface{} }
+	intrinsics["math/rand.New"] = func(m *Machine, fn *ssa.Function, a []value) value {
+		t := fn.Signature.Results().At(0).Type().(*types.Pointer).Elem()
+		cell := new(value)
+		*cell = m.zero(t)
+		return cell
+	}
+	nonneg := func(w int) intrinsic {
+		return func(m *Machine, fn *ssa.Function, a []value) value {
+			r := m.fresh("rand", w)
+			m.addPC(m.tt.Cmp("bvsle", m.tt.Const(w, 0), r))
+			m.stats.Assumes["(*rand.Rand).Int31/Int63/Int: nondeterministic non-negative value"]++
+			return r
+		}
+	}
+	intrinsics["(*math/rand.Rand).Int31"] = nonneg(32)
+	intrinsics["(*math/rand.Rand).Int63"] = nonneg(64)
+	intrinsics["(*math/rand.Rand).Int"] = nonneg(64)
+}
 
 type murmurCall struct {
 	arg []*Term
